@@ -38,6 +38,22 @@ def energy_case(draw, tier="quick"):
     du = (wl * z * os_ / (dxr * N[0]), wl * z * os_ / (dxc * N[1]))
     amp, opd, mask = draw(gen.aperture(shape, wl, max_waves=2.0, min_samples=3))
     amp = amp * draw(gen.scales())
+    if draw(st.integers(0, 5)) == 0:
+        # a real field of +a / -a samples in equal numbers (half-wave steps, checkerboards): full power, but the
+        # samples sum to exactly zero (no light on axis)
+        idx = np.argwhere(mask != 0)
+        if len(idx) >= 2:
+            if len(idx) % 2:
+                mask = mask.copy()
+                mask[tuple(idx[-1])] = 0
+                idx = idx[:-1]
+            sign = np.where((idx[:, 0] + idx[:, 1]) % 2 == 0, 1.0, -1.0) if draw(st.booleans()) else \
+                np.where(np.arange(len(idx)) < len(idx) // 2, 1.0, -1.0)
+            if sign.sum() != 0:
+                sign = np.where(np.arange(len(idx)) % 2 == 0, 1.0, -1.0)
+            amp = np.zeros(shape)
+            amp[tuple(idx.T)] = sign * draw(st.sampled_from([1.0, 0.5, 2.0]))
+            opd = np.zeros(shape)
     power = draw(gen.pos_log(1e-6, 1e6))
     # nested windows (in native samples), strictly inside the period
     full = (N[0] // os_, N[1] // os_)
@@ -70,6 +86,7 @@ def energy(case, ctx):
                                                    f"{float(np.sum(np.abs(amp) ** 2))}")
     model = pm.phasor(shape, amp, case["opd"], case["mask"], wl)
     p_in = float(np.sum(np.abs(model) ** 2))
+    ctx.tag("zero_sum_field" if np.count_nonzero(model) and model.sum() == 0 else None)
     ctx.tag("aniso_N" if N[0] != N[1] else "iso_N", f"os:{os_}", "normalized" if case["normalize"] else None,
             f"nested_depth:{len(case['windows'])}", gen.parity_tags("in", shape), gen.parity_tags("N", N),
             "per_axis_dx" if case["dx"][0] != case["dx"][1] else None)
